@@ -1,6 +1,8 @@
 import NimaVerif.Lemmas.TraceEdit
 /-! Footprints against identity lists: nodes whose identities avoid the footprint are untouched. -/
 namespace Nima
+-- name tokens are compared by spelling in this file (see `NameCmp` in Model/Edit.lean)
+attribute [local instance] NameCmp.spelled
 
 open Node EditM
 
